@@ -138,6 +138,52 @@ impl Session {
         }
     }
 
+    /// `Display::release()` followed by a new `Builder::init` with `cfg2` on the very same
+    /// interface object (same transport; a model with the same framebuffer size, possibly another
+    /// colour depth). Controller memory, pin levels and whatever the interface caches carry over.
+    pub fn rebuild(self: Box<Session>, cfg2: &DispCfg) -> Opened {
+        let me = *self;
+        assert_eq!(me.cfg.tr, cfg2.tr, "harness: rebuild keeps the transport");
+        assert_eq!(me.cfg.model.fb(), cfg2.model.fb(), "harness: rebuild keeps the framebuffer size");
+        let Session { tl, mut panel, mut reffb, rig, keep_touched, touched, steps, compared_cells, .. } = me;
+        tl.begin_call(200_000, None);
+        let built = rig.release_rebuild(cfg2, &tl);
+        tl.end_call();
+        drain(&tl, &mut panel);
+        match built.rig {
+            None => {
+                panel.abort_partial();
+                Opened::Failed { init: built.init, tl, panel }
+            }
+            Some(rig) => {
+                panel.quiesce();
+                let init_log = panel.take_log();
+                let init_findings: Vec<Finding> = panel.take_anomalies().into_iter().map(Finding::Panel).collect();
+                panel.window = (cfg2.ox as u32, cfg2.oy as u32, cfg2.w as u32, cfg2.h as u32);
+                reffb.geo = Geo { w: cfg2.w as i64, h: cfg2.h as i64, ox: cfg2.ox as i64, oy: cfg2.oy as i64, ori: cfg2.ori };
+                reffb.mask = (1u32 << cfg2.model.bits()) - 1;
+                let t_init_return = panel.now;
+                Opened::Ready(Box::new(Session {
+                    cfg: cfg2.clone(),
+                    tl,
+                    panel,
+                    reffb,
+                    rig,
+                    init_log,
+                    init_findings,
+                    t_init_return,
+                    ref_sleeping: false,
+                    keep_touched,
+                    touched,
+                    steps,
+                    compared_cells,
+                    madctl_bgr_quirk: cfg2.model == crate::rig::ModelId::ExtQuirk,
+                    salt: 0x5EED ^ steps,
+                }))
+            }
+        }
+    }
+
     /// Upper bound on low-level operations a terminating implementation may
     /// need for `op` (generous: x4 over the worst transport).
     pub fn budget(&self, op: &Op) -> u64 {
@@ -304,7 +350,10 @@ impl Session {
 
     /// address mode the controller must hold for orientation `o` on this display
     pub fn want_madctl(&self, o: Ori) -> u8 {
-        crate::spec::madctl(self.cfg.bgr != self.madctl_bgr_quirk, o, self.cfg.refresh & 1 != 0, self.cfg.refresh & 2 != 0)
+        // the quirky external model programs (and returns) the opposite colour order and the
+        // opposite horizontal refresh order; both must survive every later orientation change
+        let q = self.madctl_bgr_quirk;
+        crate::spec::madctl(self.cfg.bgr != q, o, self.cfg.refresh & 1 != 0, (self.cfg.refresh & 2 != 0) != q)
     }
 
     pub fn current_ori(&self) -> Ori {
